@@ -105,7 +105,7 @@ def meta(tier):
                 'drawn from start x kind/length options, each placed by its own origin; expected rejection iff two lines of '
                 'length >= 1 share an address, otherwise the image is the union; non-trivial = ranges touch or overlap, or a '
                 'zero-length line lies inside another range; every pair (and every touching triple) is run a second time with '
-                '--no-binary and one of the four pretty-print formats, or with an image window (-s / -e) that contains none of the lines, judged on acceptance only; plus every program of up to 4 (thorough 5) lines over bytes / fills / a macro / zone switches '
+                '--no-binary and one of the four pretty-print formats, or with an image window (-s / -e) that contains none of the lines, judged on acceptance only; plus every program of up to 4 (thorough 5) lines over bytes / fills / a macro / zone switches / includes of a plain file and of a file that switches zone '
                 'without any origin directive or predefined data (collisions through overlapping zones and code growing into a zone only); states = distinct sets of occupied (address, owner) cells',
         'bounds': {'starts': 'pairs 0..6; triples 0..3 (quick) / 0..6 (thorough)',
                    'kinds': ['.byte x1..3', '.fill 0|1|3', '.zerountil (len 2, len 0)', 'nop', 'ldi', 'jmp', 'm2 (macro of two 12-bit steps)',
@@ -196,12 +196,21 @@ def sequential_programs(acc, idx, n, q):
     def sigma(i):
         m = 0x30 + 0x10 * i
         return [('data', 1, [m]), ('data', 1, [m, m + 1, m + 2]), ('fill', 2, m + 5), ('nop',), ('m2', m & 0xFF, 1),
-                ('memzone', 'z1'), ('memzone', 'z2'), ('memzone', 'z3'), ('memzone', 'z4'), ('memzone', 'GLOBAL')]
+                ('memzone', 'z1'), ('memzone', 'z2'), ('memzone', 'z3'), ('memzone', 'z4'), ('memzone', 'GLOBAL'),
+                # an included file is laid out in GLOBAL and its includer resumes its own zone: zone changes without any directive
+                ('include', f'p{i}.asm'), ('include', f'z{i}.asm')]
     nsym = len(sigma(0))
     depth = 4 if q else 5
 
     def build(h):
-        return {'main.asm': [sigma(i)[j] for i, j in enumerate(h)]}
+        files = {'main.asm': [sigma(i)[j] for i, j in enumerate(h)]}
+        for i, j in enumerate(h):
+            m = 0x38 + 0x10 * i
+            if j == 10:
+                files[f'p{i}.asm'] = [('data', 1, [m, m + 1, m + 2])]
+            elif j == 11:
+                files[f'z{i}.asm'] = [('data', 1, [m]), ('memzone', 'z2'), ('data', 1, [m + 1, m + 2])]
+        return files
 
     def ok(h):
         return R.assemble(params, build(h)).status != 'REJECT'
